@@ -14,6 +14,9 @@
  *        11   arbitrary IDLE state (every left-over of earlier transfers), nothing in between (C05)
  *   BSP  block upload: block size announced inside a PARTIAL acknowledge (0: the current one)
  *   PTGT object the arbitrary pre-state is open on (default domain)            */
+#if defined(TGT) && (TGT == 4)
+#define OD_DN16            /* 2112h: 16 bit, direct storage, node-id relative */
+#endif
 #include "sdo_inv.h"
 
 #ifndef XF
@@ -60,7 +63,7 @@
 
 typedef struct { uint16_t idx; uint8_t sub; uint8_t w; } XMUX;
 static const XMUX xt[] = {
-    { 0x2100, 0, 1 }, { 0x2101, 0, 2 }, { 0x2102, 0, 4 }, { 0x2106, 0, 4 }, { 0, 0, 0 }, { 0, 0, 0 },
+    { 0x2100, 0, 1 }, { 0x2101, 0, 2 }, { 0x2102, 0, 4 }, { 0x2106, 0, 4 }, { 0x2112, 0, 2 }, { 0, 0, 0 },
     { 0x2110, 0, 0 }, { 0x2111, 0, 0 }
 };
 #define IDX xt[TGT].idx
